@@ -130,7 +130,7 @@ def install(g, prop, names, prefixes, profiles_quick, profiles_thorough=None, n_
 
     def distribution(cases):
         keys = ["tasks", "items", "yields", "syncs", "withs", "tries", "raises", "depth", "old", "dicts", "nested",
-                "item_faults", "bad", "lazy", "errfut", "reads", "nonasync", "ctx_faults", "sticky", "overrides", "kinds", "shared"]
+                "item_faults", "bad", "lazy", "errfut", "reads", "nonasync", "ctx_faults", "sticky", "overrides", "kinds", "shared", "fault_stacks"]
         agg = {k: 0 for k in keys}
         mx = {k: 0 for k in keys}
         withk = {k: 0 for k in keys}
